@@ -39,6 +39,19 @@ def obligations(ctx):
                       desc="res_size in [0,10] and k in [1,62] symbolic; znx_normalize replaced by uninterpreted digit/carry functions (the primitive is decided by prim/): every "
                            "output limb is the digit of its input limb with the carry threaded through EVERY lower limb, zero extension, nothing else written"))
         obs[-1].probe_inputs = probe
+    # the same loop structure for EVERY ring dimension N = 2^0 .. 2^16 (N is a solver variable): projection onto one symbolic coefficient column with the memory
+    # modelled by the cells of that column only (c05_sched.c, h_sched_proj) - a driver that tiles, blocks or switches path with N is covered
+    smp = 4  # sizes <= 6 with 70 unwindings: 800 s and more per obligation on a loaded machine
+    for asz in range(0, smp + 1):
+        # probe: N = 4096, res_size 2, k 62, both strides N, last column, every limb 2^61 (digit -2^61, carry +1 at every limb)
+        probe = [12, 2, 62, 0, 0, 4095] + [(1 << 61)] * smp
+        o = Ob("schedule-everyN/vec_znx_normalize_base2k_ref/a=%d/res<=%d" % (asz, smp), "c05_sched.c", "h_sched_proj", {"SMAX": smp, "ASZ": asz, "PROJ": None, "LGMAX": 16},
+               ["arithmetic/vec_znx.c"], unwind=2 * smp + 2, family="normalize loop structure, every N (projection on a symbolic column)", timeout=900,
+               desc="N = 2^lg with lg in [0,16], the column j < N, res_size <= %d, k in [1,62] and both strides symbolic; the elementwise primitive is replaced by its uninterpreted "
+                    "step on the cells of column j (decided from pointer offsets alone, other columns clobber): column j of every output limb is the digit chain of column j of "
+                    "the input, for every N and however the driver tiles the coefficients" % smp)
+        o.probe_inputs = probe
+        obs.append(o)
     if not ctx.quick:
         for nnv in (1, 2):
             smx = 10 if nnv == 1 else 6
